@@ -132,8 +132,12 @@ structure St where
 
 def maxRecurse : Nat := 32        -- GD_MAX_RECURSE_LEVEL
 
-/-- GD_PVERS_GE -/
-def P.ge (p : P) (v : Nat) : Bool := !p.pedantic || decide (p.standards ≥ v)
+/-- the version gate of a field specification.  `v < 100`: GD_PVERS_GE(p, v), syntax introduced in Version v.
+    `v ≥ 100`: GD_PVERS_LT(p, v - 100), syntax that pedantic parsing accepts only BEFORE Version v - 100
+    (e.g. the one-character RAW types of `_GD_RawType`: `!pedantic || standards < 8`). -/
+def P.ge (p : P) (v : Nat) : Bool :=
+  if v ≥ 100 then !p.pedantic || decide (p.standards < v - 100)
+  else !p.pedantic || decide (p.standards ≥ v)
 
 /-- /VERSION: parse.c case 'V' -/
 def P.setVersion (p : P) (v : Nat) : P :=
